@@ -207,9 +207,22 @@ fn step(env: &Env, st: &mut Store, m: &mut MStore, op: &SOp, rep: &mut Report) -
             let lt = lib_track(env, st, src);
             let mt = model_track(m, src);
             if let (Ok(lt), Ok(mt)) = (lt, mt) {
+                let mut forgot = false;
                 let lr = if *noblock {
                     env.plan.slow_us.store(400, std::sync::atomic::Ordering::SeqCst);
                     match st.merge_external_noblock(*dest, lt, classes.as_deref(), *hist) {
+                        Ok(f) if (*dest + src.id) % 3 == 0 => {
+                            // fire and forget: the future is dropped at once, while the (slowed down) merge is still in
+                            // flight; the merge must take effect all the same and the store must keep serving. A blocking
+                            // lookup, which passes through every worker's queue, is the barrier before the state comparison.
+                            drop(f);
+                            env.plan.slow_us.store(0, std::sync::atomic::Ordering::SeqCst);
+                            let _ = st.lookup(WLookup::HasClass(0));
+                            rep.count("noblock_merges_whose_future_was_dropped");
+                            // (the outcome is not observed: only the state comparison after this step judges the effect)
+                            forgot = true;
+                            Ok(())
+                        }
                         Ok(f) => {
                             // deferred get: while the merge is in flight (its optimize step is slowed down) the store must
                             // keep looking like the map it is: same number of tracks, destination present under its id
@@ -243,7 +256,7 @@ fn step(env: &Env, st: &mut Store, m: &mut MStore, op: &SOp, rep: &mut Report) -
                     st.merge_external(*dest, &lt, classes.as_deref(), *hist)
                 };
                 let mr = m.merge_external(*dest, &mt, classes.as_deref(), *hist);
-                if lr.is_ok() != mr.is_ok() {
+                if !forgot && lr.is_ok() != mr.is_ok() {
                     let why = if !m.tracks.contains_key(dest) { "dest-missing" } else if *dest == src.id { "same-track" } else { "merge" };
                     let kind = if mr.is_err() { "ok-returned" } else { "err-returned" };
                     return Some((format!("C09/merge_external{}/{}/{}", if *noblock { "_noblock" } else { "" }, why, kind), json!({"lib": format!("{:?}", lr.map_err(|e| e.to_string()))})));
@@ -444,7 +457,7 @@ fn main() {
     let alpha = small_alphabet();
     let a = alpha.len() as u64;
     rep.note("rule", json!(format!("two workloads. (1) exhaustive: every operation sequence of length <= L over a small alphabet of {} operations (ids 1..3, classes 0..1, two observation values, poison observations that make optimize fail, owned / external / non-blocking merges incl. same-track and missing ids, fetch, lookup, find_usable, clear), shards 1 and 2; L = 2 in the quick tier plus a random sample of length-3 sequences, L = 3 complete in the thorough tier. (2) random sequences of 50..400 operations over 8 ids, 3 classes, shards 1..5. After EVERY operation the return value is compared with a sequential model (a map id -> track whose callbacks are the workload's own) and every shard's contents are read through get_store() and compared track by track (attributes, observations per class, merge history, metric state), with id % n placement and per-shard counts. add() on a missing id is additionally compared with new_track(id)...build() + add_track in a scratch store. In the random sequences every ~40th step four threads issue lookup (all query kinds) / shard_stats concurrently (the &self operations) against the quiescent store; each call must return the answer of the model. Non-trivial: sequences in which at least one merge or failing callback occurs; distinct by sequence hash.", a)));
-    rep.note("assumptions", json!(["workload callbacks are deterministic functions of their arguments (data-driven failures)", "merge_external_noblock: the result is awaited before the next operation"]));
+    rep.note("assumptions", json!(["workload callbacks are deterministic functions of their arguments (data-driven failures)", "merge_external_noblock: the result is awaited before the next operation, or the future is dropped at once and a blocking lookup serves as barrier"]));
     // ---------- exhaustive part
     let full3 = cli.thorough() && !cli.small;
     let mut seq_index: u64 = 0;
